@@ -191,8 +191,25 @@ def _diff(curr, prev):
     return diff
 
 
+def _handed(node: dawgie.pl.dag.Node) -> set:
+    '''targets released to the farm whose result has not come back yet
+
+    Unlike 'doing' this record is not touched by purge(), so it stays truthful
+    while a failed ancestor withdraws work from a node that is executing.
+    '''
+    handed = node.get('handed')
+    if handed is None:
+        handed = set()
+        node.set('handed', handed)
+    return handed
+
+
 def _is_asp(n: dawgie.pl.dag.Node) -> bool:
     return n.get('factory').__name__ == dawgie.Factories.analysis.name
+
+
+def _is_idle(node: dawgie.pl.dag.Node) -> bool:
+    return not (node.get('todo') or node.get('doing') or _handed(node))
 
 
 def _priors(node):
@@ -264,7 +281,9 @@ def complete(job, runid, target, timing, status):
     elif target in job.get('doing'):
         job.get('doing').remove(target)
 
-    if not (job.get('todo') or job.get('doing')):
+    _handed(job).discard(target)
+
+    if _is_idle(job):
         que.remove(job)
         job.set('status', State.waiting)
         pass
@@ -375,19 +394,28 @@ def next_job_batch():
                         target == '__all__'
                         or '__all__' in dependency.get('todo')
                         or '__all__' in dependency.get('doing')
+                        or '__all__' in _handed(dependency)
                     ):
                         available.clear()
                     if (
                         target in dependency.get('todo')
                         or target in dependency.get('doing')
+                        or target in _handed(dependency)
                     ) and target in available:
                         available.remove(target)
                     pass
                 pass
+            # a target that this job is still executing waits for its result
+            for target in set(job.get('doing')) | _handed(job):
+                if target == '__all__':
+                    available.clear()
+                elif target in available:
+                    available.remove(target)
             for a in available:
                 job.get('todo').remove(a)
             job.get('do').update(available)
             job.get('doing').update(available)
+            _handed(job).update(available)
 
             if available:
                 todo.append(job)
